@@ -4,8 +4,6 @@
 From TV Require Import Base.I32 Model.Fmt Model.FmtLex Model.FmtParse Spec.Fmt Proofs.FmtLits.
 Open Scope Z_scope.
 
-Definition nextc (s : string) : option ascii := match s with String c _ => Some c | EmptyString => None end.
-
 Definition nofollow (p : ascii -> bool) (rest : string) : Prop :=
   match rest with EmptyString => True | String c _ => p c = false end.
 
